@@ -91,7 +91,7 @@ VERUS_UNITS = {
             (r'(start|end)_despawn_reaction$', ['C03', 'C04', 'C07']),
             (r'(start|end)_entity_event$', ['C03', 'C04', 'C05']),
             (r'(start|end)_broadcast_event$', ['C03', 'C04', 'C05']),
-            (r'(SystemCommand|EventCommand|ReactionCommand)::apply$', ['C03', 'C04']),
+            (r'(SystemCommand|EventCommand|ReactionCommand)::apply$', ['C03', 'C04', 'C05', 'C18']),
             (r'\w+AccessTracker::prepare$', ['C03']),
         ],
         'negctl': [
